@@ -102,13 +102,15 @@ def parse_template(path):
             toks = s[len("//@fn "):].split()
             cur = {"file": toks[0], "name": toks[1], "within": None, "as": None, "rules": [],
                    "rewrites": [], "ret": None, "spec": [], "loops": {}, "before": [],
-                   "after": [], "tags": [], "header": None, "canary": True}
+                   "after": [], "tags": [], "header": None, "canary": True, "isolation": False}
             for t in toks[2:]:
                 k, _, v = t.partition("=")
                 if k == "as":
                     cur["as"] = v
                 elif k == "canary":
                     cur["canary"] = v != "off"
+                elif k == "isolation":
+                    cur["isolation"] = v == "on"
                 else:
                     raise Undecided("unknown //@fn option " + t)
             sec = None
@@ -118,6 +120,9 @@ def parse_template(path):
             continue
         if s.startswith("//@within "):
             cur["within"] = s[len("//@within "):].strip()
+        elif s.startswith("//@rule? "):
+            # optional rule: applied where its pattern occurs, skipped (and logged) where it does not
+            cur["rules"].append("?" + s[len("//@rule? "):].strip())
         elif s.startswith("//@rule "):
             cur["rules"].append(s[len("//@rule "):].strip())
         elif s.startswith("//@rewrite "):
@@ -182,12 +187,16 @@ def fill_fn(spec, canary, canary_ids, log):
     # 1. catalogued rewrites -------------------------------------------------------------
     applied = []
     for rule in spec["rules"]:
+        optional = rule.startswith("?")
+        rule = rule.lstrip("?")
         name, _, arg = rule.partition(" ")
         fn = R.RULES.get(name)
         if fn is None:
             raise Undecided("rule %s not in catalogue" % name)
         sig2, body2, count = fn(sig, body, arg.strip())
         if count == 0:
+            if optional:
+                continue
             raise Undecided("rule %s did not apply in fn %s (source changed shape)" % (rule, spec["name"]))
         sig, body = sig2, body2
         applied.append("%s x%d" % (rule, count))
@@ -285,6 +294,11 @@ def fill_fn(spec, canary, canary_ids, log):
     for pos, text in sorted(inserts, key=lambda t: -t[0]):
         body = body[:pos] + text + body[pos:]
     header = (spec["header"] + "\n") if spec["header"] else ""
+    if spec.get("isolation", False) is False:
+        # loops are verified in the context of the enclosing function: a fact established before a
+        # loop about an unmodified local need not be repeated as an invariant, so hoisting a constant
+        # sub-expression in front of a loop does not break the proof
+        header = "#[verifier::loop_isolation(false)]\n" + header
     spec_text = "\n".join(spec["spec"])
     text = "%s%s\n%s\n%s\n" % (header, sig, spec_text, body)
     return text, {"fn": spec["name"], "file": spec["file"], "line": loc["line"],
